@@ -300,7 +300,12 @@ func init() {
 			case "pv":
 				dst, _ = Arg(t, "p", value)
 			default:
-				dst, _ = Arg(t, args[1], value)
+				if strings.HasPrefix(args[1], "po:") {
+					// a pointer to ANOTHER value of the type: a used destination
+					dst, _ = Arg(t, "p", args[1][3:])
+				} else {
+					dst, _ = Arg(t, args[1], value)
+				}
 			}
 			var bb inspector.ByteBuffer
 			_ = ins.CopyTo(a, dst, &bb)
